@@ -321,6 +321,7 @@ class Chain:
         self.certs = [Certificate.load(p) for p in certs]
         self.roots = [Certificate.load(p) for p in (roots or certs[:1])]
         self.sp = get_signature_provider(local_file_key=key)
+        self.key_path = key
         self.name = os.path.basename(certs[-1])
 
     def cert_block(self):
@@ -450,6 +451,7 @@ def run(ck, only_cases=None):
     time.tzset()
     import warnings
     warnings.filterwarnings("ignore", message=".*negative serial number.*")   # a test certificate of /repo; irrelevant here
+    warnings.filterwarnings("ignore", message=".*Attribute's length must be.*")  # another test certificate (RSA-3072)
     from spsdk.crypto.symmetric import Counter
     from spsdk.sbfile.sb2 import commands as C
     from spsdk.sbfile.sb2.headers import ImageHeaderV2
@@ -617,10 +619,138 @@ def run(ck, only_cases=None):
         cases[1].update(flags=0x8008, pv=[1, 2, 3], cv=[4, 5, 6])
         if len(cases[1]["sections"]) < 2:
             cases[1]["sections"] = cases[1]["sections"] + [gen_section(rng, 77, False)]
+    if only_cases is None:
+        sc = ck.stream("config_path", "generated YAML configurations (1..3 sections, the 9 command kinds SB21Helper can express, files for LOAD "
+                       "data, options incl. flags/versions/dek/mac/nonce/timestamp, binary certificate block of any chain): "
+                       "BootImageV21.load_from_config(...).export() and `nxpimage sb21 export` (click CliRunner) produce the same bytes as "
+                       "the API path; ROM model on the CLI output = content of the configuration; non-trivial = distinct case")
+        for i in range(ck.budget(8, 80)):
+            check_config_path(ck, drv, sc, chains, i)
     n_flip = ck.budget(8, 16)
     for case in cases:
         forced = case.pop("_forced", None)
         check_image(ck, drv, s21 if case["version"] == 21 else s20, st, case, chains, n_flip, BootImageV20, BootImageV21, forced)
+
+
+# ---------------------------------------------------------------------------------------------- config / CLI path
+def gen_yaml_cmd(rng):
+    """(spec for the API path, YAML command dict builder) over the command kinds SB21Helper can express"""
+    sp = None
+    while sp is None or sp[0] not in ("L", "F", "E", "M", "KT", "KF", "V", "J", "P"):
+        sp = gen_cmd(rng, big=False)
+    if sp[0] == "L":
+        sp[3] = 0                       # no extra flag bits through the config
+    if sp[0] == "P":
+        sp[2], sp[4], sp[5] = 4, 0, 0   # `programFuses` with a pattern: data word 1 only, memory id 4
+        sp[3] = sp[3] or 1              # `pattern: 0` is refused by SB21Helper._prog (truthiness test; front end = C19's subject)
+    return sp
+
+
+def yaml_cmd(sp, idx, tmp):
+    k = sp[0]
+    if k == "L":
+        path = os.path.join(tmp, f"load_{idx}.bin")
+        with open(path, "wb") as fh:
+            fh.write(load_data(sp[4], sp[5]))
+        d = {"address": sp[1], "file": path}
+        if sp[2]:
+            d["load_opt"] = sp[2]
+        return {"load": d}
+    if k == "F":
+        d = {"address": sp[1], "pattern": sp[2]}
+        if sp[3]:
+            d["length"] = sp[3]
+        return {"fill": d}
+    if k == "E":
+        d = {"address": sp[1], "length": sp[2], "flags": sp[3]}
+        if sp[4]:
+            d["mem_opt"] = sp[4]
+        return {"erase": d}
+    if k == "M":
+        d = {"address": sp[1], "size": sp[2]}
+        if sp[3]:
+            d["mem_opt"] = sp[3]
+        return {"enable": d}
+    if k in ("KT", "KF"):
+        return {"keystore_to_nv" if k == "KT" else "keystore_from_nv": {"address": sp[1], "mem_opt": sp[2]}}
+    if k == "V":
+        return {"version_check": {"ver_type": sp[1], "fw_version": sp[2]}}
+    if k == "J":
+        d = {"address": sp[1], "argument": sp[2]}
+        if sp[3] is not None:
+            d["spreg"] = sp[3]
+        return {"jump": d}
+    if k == "P":
+        return {"programFuses": {"address": sp[1], "pattern": sp[3]}}
+    raise ValueError(k)
+
+
+def check_config_path(ck, drv, s, chains, idx):
+    """The YAML configuration path (`BootImageV21.load_from_config`, `nxpimage sb21 export`) builds the same file as the
+    API path for the same content; the ROM model accepts the CLI's output with the given content."""
+    import yaml
+    from click.testing import CliRunner
+    from spsdk.apps import nxpimage
+    from spsdk.sbfile.sb2.images import BootImageV21
+    from spsdk.utils.misc import load_configuration
+
+    rng = ck.rng
+    tmp = os.path.join(os.environ.get("VERIF_SCRATCH", "/tmp"), f"c04cfg{idx}")
+    os.makedirs(tmp, exist_ok=True)
+    case = gen_image(rng, 21, big=False, chains=chains)
+    nsec = rng.choice([1, 2, 3])
+    case["sections"] = [{"uid": i, "hmac": 1, "cmds": [gen_yaml_cmd(rng) for _ in range(rng.choice([1, 2, 4, 7]))]} for i in range(nsec)]
+    if case["bn"] == 0:
+        case["bn"] = 1
+    ch = chains[case["chain"]]
+    cb = ch.cert_block()
+    cb.header.build_number = case["bn"]
+    with open(os.path.join(tmp, "cert_block.bin"), "wb") as fh:
+        fh.write(cb.export())
+    cfg = {
+        "family": "rt5xx",
+        "options": {"flags": case["flags"], "buildNumber": case["bn"], "productVersion": ver_str(case["pv"]),
+                    "componentVersion": ver_str(case["cv"]), "secureBinaryVersion": "2.1", "zeroPadding": True,
+                    "dek": case["dek"], "mac": case["mac"], "nonce": case["nonce"], "timestamp": case["ts"]},
+        "signPrivateKey": ch.key_path, "certBlock": os.path.join(tmp, "cert_block.bin"),
+        "containerOutputFile": os.path.join(tmp, "out.sb2"), "containerKeyBlobEncryptionKey": case["kek"],
+        "RKTHOutputPath": os.path.join(tmp, "hash.bin"),
+        "sections": [{"commands": [yaml_cmd(c, f"{si}_{ci}", tmp) for ci, c in enumerate(sec["cmds"])]} for si, sec in enumerate(case["sections"])],
+    }
+    cfg_path = os.path.join(tmp, "config.yaml")
+    with open(cfg_path, "w") as fh:
+        yaml.safe_dump(cfg, fh)
+    s.note(case, cls=f"sections={nsec},chain={case['chain']}")
+    api = pyres(lambda: build_image(case, chains).export(padding=bytes(8)))
+    if api[0] != "ok":
+        s.expect(False, case, "SPSDK refuses to build the image through the API", api)
+        return
+    lib = pyres(lambda: BootImageV21.load_from_config(load_configuration(cfg_path), rkth_out_path=os.path.join(tmp, "hash.bin"), search_paths=[tmp]).export())
+    s.expect(lib == api, case, "BootImageV21.load_from_config(config).export() differs from the API path for the same content",
+             _bdiff(lib, api))
+    out = os.path.join(tmp, "cli.sb2")
+    res = pyres(lambda: CliRunner().invoke(nxpimage.main, ["sb21", "export", "-c", cfg_path, "-o", out]))
+    cli = pyres(lambda: open(out, "rb").read()) if res[0] == "ok" and res[1].exit_code == 0 else ("E:cli", res[1].output[-300:] if res[0] == "ok" else res)
+    s.expect(cli == api, case, "`nxpimage sb21 export -c config.yaml` writes a different file than the API path for the same content", _bdiff(cli, api))
+    if drv is not None and cli[0] == "ok":
+        cert = cb.export()
+        sha = 32 if case["flags"] & 0x8000 else 0
+        sig = cli[1][208 + len(cert) + sha: 208 + len(cert) + sha + cb.signature_size]
+        # the certificate block inside the file carries image_length etc. set by update(): take it from the file
+        cert = cli[1][208: 208 + len(cert)]
+        want = "ok:" + exp_content(case, cert, sig) + exp_sections(case)
+        ans = drv.ask(f"rom21 {case['kek']} {cli[1].hex()}")
+        okr = ans == want and verify_obligation(cli[1], rom_fields(ans)) is True
+        s.expect(okr, case, "ROM model does not accept the CLI's output with the content of the configuration", _diff(ans, want))
+    import shutil
+    shutil.rmtree(tmp, ignore_errors=True)
+
+
+def _bdiff(a, b):
+    if a[0] != "ok" or b[0] != "ok":
+        return [a if a[0] != "ok" else "ok", b if b[0] != "ok" else "ok"]
+    n = next((i for i, (x, y) in enumerate(zip(a[1], b[1])) if x != y), min(len(a[1]), len(b[1])))
+    return {"len": [len(a[1]), len(b[1])], "first_diff_at": n, "got": a[1][n: n + 16].hex(), "want": b[1][n: n + 16].hex()}
 
 
 def load_chains(ck):
@@ -635,6 +765,12 @@ def load_chains(ck):
                             d2 + "chain_cert_1_pkey_rsa4096.pem"))
     if r[0] == "ok" and pyres(lambda: r[1].cert_block().export())[0] == "ok":
         chains.append(r[1])
+    d3 = f"{DATA}/image/mbi/data/keys_and_certs/"
+    for certs, key in (([d3 + "selfsign_3072_v3.der.crt"], d3 + "private_rsa3072.pem"),
+                       ([d1 + "selfsign_4096_v3.der.crt"], d1 + "selfsign_privatekey_rsa4096.pem")):
+        r = pyres(lambda: Chain(certs, key))
+        if r[0] == "ok" and pyres(lambda: r[1].cert_block().export())[0] == "ok" and pyres(lambda: r[1].sp.try_to_verify_public_key(r[1].certs[-1].get_public_key()))[0] == "ok":
+            chains.append(r[1])
     ck.extra["cert_chains"] = [c.name for c in chains]
     return chains
 
